@@ -18,7 +18,8 @@
  * OpenSSL (TRUSTED, not verified): ONE certificate (XV_CERT) is modelled lazily:
  *   subject / directory name   X509_NAME_get_text_by_NID(name, NID_commonName, ..) as crypto/x509/x509name.c: -1 if the name
  *                              has no commonName (or is NULL), else the length of the FIRST commonName's raw value
- *                              (xv_cn_len, 0..XV_ASN1_MAX, ANY bytes including NUL: ghost byte xv_cn_byte at offset xv_mc);
+ *                              (xv_cn_len, 0..XV_ASN1_MAX, ANY bytes including NUL: ghost byte xv_cn_byte at offset xv_mc,
+ *                              first NUL at offset xv_cn_z, == xv_cn_len if there is none);
  *   subjectAltName             X509_get_ext_d2i(): NULL (xv_gn_absent: no extension / not decodable) or a NEW GENERAL_NAMES
  *                              stack the caller owns (xv_gn_live) of xv_gn_num (0..INT_MAX-1) entries.  OPENSSL_sk_value()
  *                              makes up entry i when it is asked for (entries must be asked for in order, each once: an
@@ -120,6 +121,11 @@ void *memcpy(void *dst, const void *src, size_t n)
  *     offset xv_mc, if it lies in between, is not.  (Every string of this unit has its NUL at the end of its object.) */
 size_t strlen(const char *s)
 {
+    if (xv_nm_buf != NULL && s == xv_nm_buf) {
+        /* (a') the buffer X509_NAME_get_text_by_NID filled last: the offset of the first NUL of what it wrote, which the
+         * model chose (xv_cn_z, or the terminator) -- TRUSTED(libc strlen over the model's bytes) */
+        return (size_t)(xv_cn_z < xv_nm_fill_len - 1 ? xv_cn_z : xv_nm_fill_len - 1);
+    }
     if (xv_asn1_data != NULL && __CPROVER_same_object(s, xv_asn1_data)) {
         __CPROVER_assert(s == xv_asn1_data, "strlen model: the ASN.1 data is measured from its start");
         /* PO[C10,C14] strlen.stays_inside_the_asn1_value (the value has no NUL and no NUL is promised after it: over-read) */
@@ -303,6 +309,7 @@ int X509_NAME_get_text_by_NID(const X509_NAME *name, int nid, char *buf, int len
      * over-approximation; __CPROVER_havoc_slice of up to 2^24 bytes exhausts the solver's memory), then byte xv_mc and the NUL */
     __CPROVER_havoc_object(buf);
     if (xv_mc < (size_t)i) buf[xv_mc] = xv_cn_byte;
+    if (xv_cn_z >= 0 && xv_cn_z < i) buf[xv_cn_z] = 0;         /* the value's first NUL, if it has one (xv_cn_z == xv_cn_len: none) */
     buf[i] = 0;
 #ifdef XV_STR_EXACT
     xv_ex_cn[0] = buf[0]; xv_ex_cn[1] = i > 0 ? buf[1] : 0; xv_ex_cn[2] = 0;
